@@ -28,8 +28,10 @@ PROPS = {
         "single-asset provisions with its buffer, locked deposits calling the farm manager, rejected operations, injected bank "
         "faults): in every world reachable from genesis, for every denom, sum of the reserves of all pools <= the pool manager's "
         "bank balance (C01_backed_in_every_reachable_world). Assumes no transaction is signed by the pool manager's own address "
-        "and configured creation fees < 2^127. PARTIAL only for the two side clauses (excess comes only from donations / the odd "
-        "unit; only minimum-liquidity LP is held): those are not theorems. The inequality is also evaluated on the "
+        "and configured creation fees < 2^127. The side clause 'excess comes only from donations / the odd unit' is a theorem over "
+        "histories of the core pool operations (see OVER HISTORIES below); PARTIAL for histories that also contain locked deposits, "
+        "pool creations and farm operations (lower bound + monitors there) and for 'only minimum-liquidity LP is held' "
+        "(per-transaction theorem for first deposits + monitor). The inequality is also evaluated on the "
         "implementation's snapshots by the Coq monitor mon_C01 after every operation of every generated history (pools sharing "
         "denoms, LP denoms used as pool assets, donations, odd single-asset deposits, routes, faults).",
         monitor="mon_C01f"),
@@ -58,10 +60,10 @@ PROPS = {
         "F-clamp (witness scripts replayed on the implementation every run) and otherwise covered by the correspondence only."),
     "C07": P("Props/C07.v", [("farm-scn", 64, 400), ("manyfarms-scn", 16, 120), ("probe-scn", 16, 64)],
         "PARTIAL. Proved: the per farm-epoch formula (floor(rate * user weight / total weight), carry-forward weights, rounding "
-        "bounds); Rewards query = what an immediate Claim pays for users staking one LP token; cursor movement. Refuted with "
+        "bounds); cursor movement. Refuted with "
         "witnesses replayed on the implementation (F-until, F-first-epoch). Not proved: schedule independence outside those "
-        "classes, query = claim with several LP tokens (the farm scenarios query Rewards before claims and split claims with "
-        "until_epoch; compared with the model on every run)."),
+        "classes (the farm scenarios query Rewards before claims and split claims with until_epoch; compared with the model on "
+        "every run)."),
     "C14": P("Props/C14.v", [("pool-scn", 40, 400), ("fault-scn", 32, 250), ("probe-scn", 16, 64)],
         "PROOF at transaction level on the chain model, for every world, sender, pool, amount and tolerance: a successful "
         "single-asset ProvideLiquidity transaction IS the swap of floor(amount/2) on the pool as it was (perform_swap, caller's swap "
@@ -188,7 +190,7 @@ _EXTRA = {
  "C01": "OVER HISTORIES (ExcessLedger.v, C01_excess_is_exactly_donations_plus_odd_units): after any history of the core pool operations (swaps, routes, withdrawals, unlocked deposits of one or several assets, bank sends, block changes, faults, rejected operations) the excess in every non-LP denom is EXACTLY the initial excess plus the ledger, whose entries are only plain bank sends to the contract and the single unit of accepted odd single-asset deposits (kernel-evaluated example included). THE EXCESS CLAUSE is also proved transaction by transaction as exact equalities on (balance - reserves), per denom (TxExcess.v, theorems C01_excess_through_a_swap / _route / _withdrawal / _deposit / _single_asset_deposit / _donation): a swap or a withdrawal leaves the excess exactly unchanged (unless the trader names the pool manager itself as receiver or the owner made it its own fee collector), a first deposit adds exactly the minimum liquidity in the LP denom, an unlocked single-asset deposit adds exactly (amount mod 2) in the deposit denom - the odd unit -, a bank send adds what was sent. The same equalities for locked deposits and pool creations are checked on the implementation by mon_C04 / mon_C01x.",
  "C17": "The frame is also proved for WHOLE TRANSACTIONS (FrameChain.v, C17_accepted_transactions_are_unaffected_by_the_switches): by a relational induction over the chain interpreter (call trees, the swap -> reply -> deposit chain of single-asset provisions, locked deposits calling the farm manager, replies, tolerated refund failures), a pool operation or any transaction to another contract that is accepted both before and after the switches of a pool were changed has exactly the same effect on the whole world - every balance, every contract state - up to the changed switches.",
  "C10": "Added: C10_total_and_user_move_together_unless_a_subtraction_saturates - every weight change moves the contract total and the user's own weight by the same amount, so total - user (the weight of everybody else) is preserved except when a subtraction saturates at zero, which is exactly the class of finding F-sat.",
- "C07": "NEW: the Rewards query equals what an immediate Claim pays for users staking ANY number of LP tokens, in every world reachable from genesis (C07_rewards_query_equals_claim_for_any_number_of_lp_tokens / _in_every_reachable_world; ClaimFrame.v: the claim's walk through the LP denoms is framed denom by denom - weight history and farm budgets of one denom do not influence the rewards of another; farm identifiers are unique by the custody invariant). This supersedes the single-LP restriction mentioned above.",
+ "C07": "Proved: the Rewards query equals what an immediate Claim pays for users staking ANY number of LP tokens, in every world reachable from genesis (C07_rewards_query_equals_claim_for_any_number_of_lp_tokens / _in_every_reachable_world; ClaimFrame.v: the claim's walk through the LP denoms is framed denom by denom - weight history and farm budgets of one denom do not influence the rewards of another; farm identifiers are unique by the custody invariant).",
  "C06": "Over all histories: C06_payouts_never_exceed_funding_in_any_reachable_world (recorded payouts of every farm of every reachable world stay within its funding; with C05 no claim can draw on another farm's or a position's funds). Monitor mon_C06 on the implementation.",
 }
 for _k, _t in _EXTRA.items():
